@@ -108,6 +108,19 @@ Theorem C16_config_splice_drops_argument :
 Proof. exact splice_nonutf8_drops_and_reorders. Qed.
 Print Assumptions C16_config_splice_drops_argument.
 
+(* outside the known class nonutf8_argv_with_config the splice is exactly real ++ config; the refuting
+   witness lies inside the class *)
+Theorem C16_config_splice_partial : forall real config,
+  nonutf8_argv_with_config real true = false ->
+  exists r, real = map Some r /\ splice real config = Ok (r ++ config).
+Proof. exact splice_outside_known. Qed.
+Print Assumptions C16_config_splice_partial.
+
+Theorem C16_config_splice_witness_known :
+  nonutf8_argv_with_config [Some (w "comrak"); None; Some (w "b.md")] true = true.
+Proof. exact splice_witness_in_known. Qed.
+Print Assumptions C16_config_splice_witness_known.
+
 (* ---- F19.  Documented: the config file's options are in force together with the command line's.
    Under the (observed) clap rule that a non-append argument may be given once, the merged list is
    accepted exactly when no such argument is on both sides. *)
